@@ -90,6 +90,16 @@ pub struct Verdict {
 }
 
 /// Compare the reference with p2sh on one program.
+/// the program left the reference's domain and multiplies (or the reference ran out of budget): running it may
+/// ask for gigabytes of memory (integer * string with a count in the billions), which C08's statement excludes
+pub fn memory_risk(rr: &RefRun, src: &str) -> bool {
+    match rr.unspecified.as_deref() {
+        Some("reference step budget exhausted") => true,
+        Some(u) => u.starts_with("operator * on") || src.contains(" * "),
+        None => false,
+    }
+}
+
 pub fn compare(section: &str, prog: &[S], rr: &RefRun) -> Verdict {
     let src = render(prog);
     if rr.unspecified.as_deref() == Some("reference step budget exhausted") {
